@@ -206,3 +206,26 @@ def Consecutive : Nat → List Rec → Prop
   | f, e :: es => e.seq = f ∧ Consecutive (f + 1) es
 
 end Rxn.Wal
+
+namespace Rxn.Wal
+
+/-- the log as the DB holds it across checkpoints: the writer in use and the rotated-away (sealed) writers whose
+asynchronous `Save` may still be outstanding, oldest first -/
+structure Log where
+  cur : Writer
+  sealed : List Writer
+deriving Repr
+
+def Log.new (id maxSize : Nat) : Log := ⟨Writer.new id maxSize, []⟩
+
+/-- `Rotate` seals the current writer and continues with the next one; every other operation acts on the current
+writer only (a sealed writer panics on Put/Delete/Cut/Truncate/Rotate) -/
+def Log.apply (l : Log) : Op → Log
+  | .rotate => ⟨l.cur.rotate, l.sealed ++ [l.cur]⟩
+  | op => ⟨l.cur.apply op, l.sealed⟩
+
+def Log.run (l : Log) : List Op → Log
+  | [] => l
+  | op :: ops => (l.apply op).run ops
+
+end Rxn.Wal
